@@ -36,7 +36,17 @@ fn workloads() -> Vec<(Cfg, Vec<Value>)> {
     let mut c5 = Cfg::default();
     c5.blocksize = 2048;
     let big = |i: u64, t: &str| json!({"op":"add","id":i,"t":t,"v":(i % 5) as i64,"pad":700});
+    // workload 5 below is pushed after this one (index 4 is referenced by the storeblocks mode)
     out.push((c5, vec![big(1, "a"), big(2, "b"), big(3, "c"), big(4, "a"), big(5, "b"), big(6, "c"), big(7, "a"), big(8, "b"), c(), big(9, "c"), big(10, "a"), big(11, "b"), d("a"), c()]));
+    // writers taking turns between two Index instances (the second one opened before anything was written):
+    // every new writer re-reads the managed list
+    let sw = || vec![json!({"op":"wait_merges"}), json!({"op":"switch_index"}), json!({"op":"new_writer"})];
+    let mut ops6 = vec![json!({"op":"open_second"}), a(1, "a"), a(2, "b"), c()];
+    ops6.extend(sw());
+    ops6.extend(vec![a(3, "a"), d("b"), c(), json!({"op":"merge"}), g()]);
+    ops6.extend(sw());
+    ops6.extend(vec![a(4, "c"), c(), json!({"op":"merge"}), g(), a(5, "b"), c()]);
+    out.push((c1.clone(), ops6));
     out
 }
 
@@ -62,7 +72,7 @@ fn run_one(tracer: &Tracer, cfg: &Cfg, ops: &[Value], plan: Option<FaultPlan>, p
             // could not even open: wait for the heal phase
         }
         for op in ops {
-            if w.writer.is_none() && op["op"] != "new_writer" {
+            if w.writer.is_none() && op["op"] != "new_writer" && op["op"] != "switch_index" && op["op"] != "open_second" {
                 let e = w.exec(&json!({"op":"new_writer"}));
                 if e["ok"] != json!(true) {
                     continue;
@@ -366,6 +376,24 @@ fn main() {
         tracer.flush();
         return;
     }
+    if a.pos.get(0).map(|s| s.as_str()) == Some("managedread") {
+        // every read of .managed.json of the two-instance workload fails once (a new writer re-reads the list:
+        // the error has to reach the caller - a writer created with a stale list leaves orphans behind)
+        let (cfg, ops) = &wl[5];
+        let sink = Tracer::sink();
+        let (n, oplog) = run_one(&sink, cfg, ops, None, "keep", json!({}), true);
+        for (k, op, class) in &oplog {
+            if *op != "atomic_read" || class != ".managed.json" {
+                continue;
+            }
+            for policy in ["keep", "drop"] {
+                let plan = FaultPlan { k: *k, permanent: false, skip_locks: true, ..Default::default() };
+                run_one(&tracer, cfg, ops, Some(plan), policy, json!({"workload":5,"k":k,"permanent":false,"policy":policy,"n":n,"managedread":true,"fop":op}), false);
+            }
+        }
+        tracer.flush();
+        return;
+    }
     if a.pos.get(0).map(|s| s.as_str()) == Some("publish") {
         // every transient fault in a publication step (atomic_write of meta.json / .managed.json,
         // sync_directory) of the workload that collects and reloads between its commits and its
@@ -396,6 +424,9 @@ fn main() {
             if o != wi {
                 continue;
             }
+        } else if wi == 5 {
+            // the two-instance workload has its own mode (managedread)
+            continue;
         }
         // fault-free run: records the operations (index, kind, file class)
         let sink = Tracer::sink();
